@@ -15,7 +15,8 @@
 (***************************************************************************)
 EXTENDS Integers, Sequences, FiniteSets, TLC, Json
 
-CONSTANTS MaxLen, ClipBug     \* ClipBug: negative control (no clipping below the lower limit)
+CONSTANTS MaxLen, ClipBug,    \* ClipBug: negative control (no clipping below the lower limit)
+          FrozenBug           \* negative control: data-derived limits of an EARLIER array are kept
 NAN == 100  PINF == 101  NINF == 102
 Vals == {0, 1, 2, 4}
 Elems == Vals \cup {NAN, PINF, NINF}
@@ -37,8 +38,10 @@ RI(n) == <<n, 1>>
 NONE == <<0, 0>>          \* "not given" (a rational with denominator 0)
 IsNone(x) == x[2] = 0
 
-VARIABLES data, cfg, lo, hi, out, phase
-vars == <<data, cfg, lo, hi, out, phase>>
+\* warm: an array the same normalisation object was applied to BEFORE (<<>> = none).  A normalisation whose
+\* limits are taken at call time is a function of the current array only.
+VARIABLES data, cfg, lo, hi, out, phase, warm
+vars == <<data, cfg, lo, hi, out, phase, warm>>
 
 Finite(d) == SelectSeq(d, IsFinite)
 RECURSIVE SortAsc(_)
@@ -96,11 +99,13 @@ Map(x) == MapL(x, lo, hi, Id)
 Init == /\ data \in UNION {[1..n -> Elems] : n \in 2..MaxLen}
         /\ Cardinality({data[i] : i \in {j \in DOMAIN data : IsFinite(data[j])}}) >= 2     \* two distinct finite values
         /\ cfg \in Cfgs
-        /\ lo = Limits(data, cfg, Id)[1] /\ hi = Limits(data, cfg, Id)[2]
+        /\ warm \in {<<>>, <<1, 4, 2>>}
+        /\ LET src == IF FrozenBug /\ warm # <<>> THEN warm ELSE data
+           IN lo = Limits(src, cfg, Id)[1] /\ hi = Limits(src, cfg, Id)[2]
         /\ RLt(lo, hi)                                                                     \* a proper interval
         /\ out = <<>> /\ phase = "new"
 Normalize == /\ phase = "new" /\ out' = [i \in DOMAIN data |-> Map(data[i])] /\ phase' = "done"
-             /\ UNCHANGED <<data, cfg, lo, hi>>
+             /\ UNCHANGED <<data, cfg, lo, hi, warm>>
 Next == Normalize
 Spec == Init /\ [][Next]_vars
 
@@ -117,7 +122,9 @@ Affs == {<<50, -100>>, <<15000, -30000>>, <<60, 0>>, <<15000, 0>>, <<3, 7>>}
 AffineInvariant == phase = "done" => \A af \in Affs :
    LET c2 == CfgAff(cfg, af)  lim == Limits(data, c2, af)
    IN \A i \in DOMAIN out : MapL(data[i], lim[1], lim[2], af) = out[i]
+\* limits taken at call time belong to the CURRENT array, whatever the object was applied to before
+LimitsOfCurrentData == lo = Limits(data, cfg, Id)[1] /\ hi = Limits(data, cfg, Id)[2]
 NaNMasked == phase = "done" => \A i \in DOMAIN out : (data[i] = NAN) <=> (out[i].k = "masked")
 
-Emit == phase = "done" => PrintT(<<"CASE", ToJson([data |-> data, cfg |-> cfg, lo |-> lo, hi |-> hi, out |-> out])>>)
+Emit == phase = "done" => PrintT(<<"CASE", ToJson([data |-> data, cfg |-> cfg, lo |-> lo, hi |-> hi, out |-> out, warm |-> warm])>>)
 =============================================================================
